@@ -33,6 +33,14 @@ void
 PPL::Pointset_Powerset<PPL::NNC_Polyhedron>
 ::difference_assign(const Pointset_Powerset& y) {
   Pointset_Powerset& x = *this;
+  // Dimension-compatibility check.
+  if (x.space_dimension() != y.space_dimension()) {
+    std::ostringstream s;
+    s << "PPL::Pointset_Powerset<PSET>::difference_assign(y):\n"
+      << "this->space_dimension() == " << x.space_dimension() << ", "
+      << "y.space_dimension() == " << y.space_dimension() << ".";
+    throw std::invalid_argument(s.str());
+  }
   using std::swap;
   // Ensure omega-reduction.
   x.omega_reduce();
@@ -277,6 +285,14 @@ void
 PPL::Pointset_Powerset<PPL::Grid>
 ::difference_assign(const Pointset_Powerset& y) {
   Pointset_Powerset& x = *this;
+  // Dimension-compatibility check.
+  if (x.space_dimension() != y.space_dimension()) {
+    std::ostringstream s;
+    s << "PPL::Pointset_Powerset<PSET>::difference_assign(y):\n"
+      << "this->space_dimension() == " << x.space_dimension() << ", "
+      << "y.space_dimension() == " << y.space_dimension() << ".";
+    throw std::invalid_argument(s.str());
+  }
   using std::swap;
   // Ensure omega-reduction.
   x.omega_reduce();
